@@ -1048,6 +1048,7 @@ class Interp:
             pre, self.probe = self.probe, None
         if pre:
             raise Unknown('loop condition with effects on elements')
+        after_first_test = dict(fr.env)                   # the condition may step a cursor (`while (++p != e)`): that happens even for zero iterations
         for it in range(2):
             self.probe = []
             before = dict(fr.env)
@@ -1072,9 +1073,7 @@ class Interp:
             if cnt < 0 and (c.get('op') == '<') != (sgn > 0):
                 raise Unknown('loop whose controlling variable moves away from its bound')
             fr.env.clear()
-            fr.env.update(saved)
-            if k == 'for' and False:
-                pass
+            fr.env.update(after_first_test)
             return
         e0, e1 = effects
         if len(e0) != len(e1):
